@@ -43,7 +43,7 @@ Definition finish (fx : flags) (allf : bool) (r : ty) (mo : bool) : ty :=
   if is_pyobj r then r
   else match r with
        | TCDouble => if fx_float fx && negb allf then TObj else TCDouble
-       | TCBint => if fx_bint fx && mo then TPyBool else TCBint
+       | TCBint => if fx_bint fx && mo then TObj else TCBint
        | TCLong | TCInt => if mo then TPyInt else r
        | _ => r
        end.
